@@ -105,17 +105,24 @@ inductive ROp where
   | bindAlias (dst h : Nat)      -- `dst = h + None` / `dictable.concat([h])` / `dst = h`: the SAME object
   deriving Repr, Inhabited
 
+/-- the pointer table after a `step` on the cells with outcome `out`: a table-producing operation that
+succeeded binds its destination to the fresh cell `cells.length`; nothing else touches a pointer -/
+def RefHeap.ptrAfter (s : RefHeap) (dst? : Option Nat) (out : Out) : List Nat :=
+  match dst?, out with
+  | some d, .unit => RefHeap.bindPtr s.ptr d s.cells.length
+  | _, _ => s.ptr
+
+/-- `Out.alias` names a cell after the `step` on the cells: report the operand's handle instead -/
+def Out.aliasTo (out : Out) (operand : Option Nat) : Out :=
+  match out, operand with
+  | .alias _, some h => .alias h
+  | out, _ => out
+
 /-- one operation on the reference heap, through `step` on the cells -/
 def rstep (s : RefHeap) : ROp → RefHeap × Out
   | .op o =>
     let r := step s.cells (o.mapHandles s.cellOf s.cells.length)
-    let ptr' := match o.dst?, r.2 with
-      | some d, .unit => RefHeap.bindPtr s.ptr d s.cells.length     -- success: `dst` names the fresh cell
-      | _, _ => s.ptr
-    let out := match r.2, o.aliasOf with
-      | .alias _, some h => Out.alias h                              -- report the handle, not the cell
-      | out, _ => out
-    (⟨ptr', r.1⟩, out)
+    (⟨s.ptrAfter o.dst? r.2, r.1⟩, r.2.aliasTo o.aliasOf)
   | .bindAlias dst h =>
     match s.ptr[h]? with
     | some c => (⟨RefHeap.bindPtr s.ptr dst c, s.cells⟩, .alias h)
